@@ -260,12 +260,20 @@ Definition constraint_with_prefix (p : string) (k : table_constraint) : table_co
   | CForeignKey n cols rt rcols od ou => CForeignKey n cols (p +++ rt) rcols od ou
   | other => other
   end.
+(* prefix_inline_foreign_key (action.rs, added by the fix for D10): the table part of an inline
+   foreign_key is prefixed by plain string concatenation, whatever the string looks like *)
+Definition prefix_inline_fk (p : string) (c : column_def) : column_def :=
+  set_fk (option_map (fun f => match f with
+                               | FKStr s => FKStr (p +++ s)
+                               | FKRef r od ou => FKRef (p +++ r) od ou
+                               | FKObj t cs od ou => FKObj (p +++ t) cs od ou
+                               end) (c_foreign_key c)) c.
 Definition action_with_prefix (p : string) (a : action) : action :=
   if String.eqb p "" then a else
   match a with
-  | CreateTable t cols ks => CreateTable (p +++ t) cols (map (constraint_with_prefix p) ks)
+  | CreateTable t cols ks => CreateTable (p +++ t) (map (prefix_inline_fk p) cols) (map (constraint_with_prefix p) ks)
   | DeleteTable t => DeleteTable (p +++ t)
-  | AddColumn t c f => AddColumn (p +++ t) c f
+  | AddColumn t c f => AddColumn (p +++ t) (prefix_inline_fk p c) f
   | RenameColumn t a b => RenameColumn (p +++ t) a b
   | DeleteColumn t c => DeleteColumn (p +++ t) c
   | ModifyColumnType t c ty f => ModifyColumnType (p +++ t) c ty f
